@@ -1,3 +1,4 @@
 import CohdlVerif.Model.DriverLoop
--- model driver of property C18 (stub: no model entry points yet)
-def main : IO Unit := CohdlVerif.driverLoop (fun _ => "bad-op")
+import CohdlVerif.Model.C18Driver
+-- model driver of property C18: `<op> <decimal args>` -> `<spec> <mirror>` (see Model/C18Driver.lean)
+def main : IO Unit := CohdlVerif.driverLoop CohdlVerif.C18.handle
